@@ -182,7 +182,24 @@ def fam_note_f7(rng):
     return lines
 
 
-FAMILIES = {"note": fam_note, "note_f4": fam_note_f4, "note_f7": fam_note_f7}
+def fam_note_wc(rng):
+    """C13 (bookkeeping of a note wait is not touched after the call can have returned): waiters on n0 whose calls
+    end for ANOTHER reason (their own short deadline) while n0 is being notified and the notifier has to wait for
+    n0's children, which other threads are notifying / freeing at the same moment (WAIT_FOR_NO_CHILDREN releases
+    n0's mutex in the middle of the notification).  Respects the API contract (a freed note is used by the freeing
+    fiber only; leaves only are freed)."""
+    nch = rng.choice([1, 2, 3])
+    pre = ["note_new n0 - %s" % rng.choice(["inf", "inf", "p3000"])] + ["note_new n%d n0 inf" % (1 + c) for c in range(nch)]
+    lines = ["sem %s" % rng.choice(["counting", "binary"]), HDR, "pre " + " ; ".join(pre)]
+    for _ in range(rng.choice([1, 2, 2, 3])):
+        lines.append("fiber " + " ; ".join(["yield"] * rng.randrange(0, 3) + ["note_wait n0 %s" % rng.choice(["p500", "p1000", "p3000", "p10000", "inf"])]))
+    lines.append("fiber " + " ; ".join(["yield"] * rng.randrange(0, 4) + ["notify n0"]))
+    for c in range(nch):
+        lines.append("fiber " + " ; ".join(["yield"] * rng.randrange(0, 4) + [rng.choice(["notify n%d", "notify n%d", "note_free n%d"]) % (1 + c)]))
+    return lines
+
+
+FAMILIES = {"note_wc": fam_note_wc, "note": fam_note, "note_f4": fam_note_f4, "note_f7": fam_note_f7}
 
 
 def make_batch(path, seed, plan, extra=""):
